@@ -456,8 +456,8 @@ def c15(prop, tier, seed):
         runs = [("MCAnnotations", "Annotations_quick.cfg", {}),
                 ("MCAnnotations", "Annotations_sim.cfg", dict(simulate="num=400", depth=4, seed=seed, workers=4))]
     else:
-        runs = [("MCAnnotations", "Annotations_thorough.cfg", dict(workers=8)),
-                ("MCAnnotations", "Annotations_sim.cfg", dict(simulate="num=5000", depth=4, seed=seed, workers=8))]
+        runs = [("MCAnnotations", "Annotations_quick.cfg", {}), ("MCAnnotations", "Annotations_thorough.cfg", dict(workers=8)),
+                ("MCAnnotations", "Annotations_sim.cfg", dict(simulate="num=40", depth=4, seed=seed, workers=8))]
     return generic_replay(prop, tier, seed, runs, "replay-annot", "model_checking",
                           "annotation-map state machine: 5 initial maps (nil, empty, foreign keys, a used CDI key, a CDI key with an unqualified "
                           "device after two good ones) x every update from 14 plugin names x 13 device ids (lengths 61..64 around the limit, every "
